@@ -116,6 +116,7 @@ def edge_histories(r):
     H.append(([I(33), L(96), G(64), F(10), G(64), G(64)], ['full', 'full', 'full']))   # feed brings the reseed closer
     H.append(([I(), L(33), G(70), L(31), G(70)], ['none'] * 6))                         # rounding up / down of the limit
     H.append(([I(), L(1024), G(1024), G(1)], ['full', 'full']))
+    H.append(([I(300), F(1000), G(40), F(64), F(65), G(33)], ['full']))                   # long personalisation and feeds
     H.append(([I(), R, R, G(64), R, G(5), G(0), G(27)], ['short', 'none', 'full', 'short']))
     return H
 
